@@ -79,7 +79,8 @@ RULE = ("random programs (length <= 6) over every public operation incl. reshape
         "symmetries (Z4 and generic classes included), abelian and fermionic, sparse, pending signs, odd charges; "
         "every array returned along each program is serialised raw (stored blocks, sign table, labels, index and "
         "sub-index tables) and judged by the Lean predicate Arr.validB (the verdict), and the programs are diffed "
-        "against the Lean model. non-trivial: >= 2 blocks and >= 1 operation that re-keys sectors")
+        "against the Lean model. non-trivial: >= 2 blocks and >= 1 operation that re-keys sectors"
+        '; twin histories (same tables under Z2/U1/Z4) and twice-fused, conjugated, twice-unfused arrays are monitored as well')
 ANCHORS = {"abelian_core.py": ["is_valid_sector", "check", "_tensordot_blockwise", "calc_fuse_block_info",
                                "drop_misaligned_sectors", "expand_dims", "squeeze", "unfuse", "reshape"],
            "fermionic_core.py": ["_map_blocks", "transpose", "resolve_combined_oddpos", "conj", "dagger"],
